@@ -37,6 +37,12 @@ INSERT_NEGATIVE_FRAGMENT = 8        # insert(i < 0, fragment): children inserted
 CLONE_SHARES_ATTRIBUTES = 16        # cloneNode: the clone's attribute map holds the *same* fragment objects
 SHALLOW_CLONE_SHARES_CHILDREN = 32  # cloneNode(False): the clone lists the same child objects and re-parents them to itself
 COMPARE_TOPMOST_ANCESTOR = 64       # compareDocumentPosition orders by the top-most common ancestor, not the deepest
+DETACHED_KEEPS_PARENT = 128         # a node no element lists still carries a parentNode (not cleared on removal, copied
+                                    # by cloneNode, set on inserted fragments): parent-chain walks leave the tree / cycle
+
+FRAGMENT_REPARENTS_LISTED = 256     # putting a node into a fragment's child list (append/insert/normalize on the fragment)
+                                    # overwrites its parentNode with the fragment's own pointer even when an
+                                    # element/document lists the node
 
 DEV_NAMES = {
     SETITEM_NEGATIVE_INDEX: 'C06.SETITEM_NEGATIVE_INDEX',
@@ -46,9 +52,12 @@ DEV_NAMES = {
     CLONE_SHARES_ATTRIBUTES: 'C06.CLONE_SHARES_ATTRIBUTES',
     SHALLOW_CLONE_SHARES_CHILDREN: 'C06.SHALLOW_CLONE_SHARES_CHILDREN',
     COMPARE_TOPMOST_ANCESTOR: 'C06.COMPARE_POSITION_TOPMOST_ANCESTOR',
+    DETACHED_KEEPS_PARENT: 'C06.DETACHED_NODE_KEEPS_PARENT',
+    FRAGMENT_REPARENTS_LISTED: 'C06.FRAGMENT_REPARENTS_LISTED_CHILD',
 }
+VIEW = [COMPARE_TOPMOST_ANCESTOR, DETACHED_KEEPS_PARENT]
 STRUCTURAL = [SETITEM_NEGATIVE_INDEX, SETITEM_OUT_OF_RANGE, SETITEM_SLICE_RAISES, INSERT_NEGATIVE_FRAGMENT,
-              CLONE_SHARES_ATTRIBUTES, SHALLOW_CLONE_SHARES_CHILDREN]
+              CLONE_SHARES_ATTRIBUTES, SHALLOW_CLONE_SHARES_CHILDREN, FRAGMENT_REPARENTS_LISTED]
 
 POS_DISCONNECTED, POS_PRECEDING, POS_FOLLOWING, POS_CONTAINS, POS_CONTAINED_BY = 1, 2, 4, 8, 16
 
@@ -81,8 +90,16 @@ class Tree(object):
 
     # ---- primitive list editing ------------------------------------------------
     def _setpar(self, L, x):
-        # a node put into a fragment gets the fragment's own pointer (fragments are transparent)
-        self.par[x] = self.par[L] if self.kind[L] == F else L
+        if self.kind[L] != F:
+            self.par[x] = L
+            return
+        # a node put into a fragment: the fragment is transparent, a node some element/document lists keeps naming it;
+        # otherwise (hidden state) it gets the fragment's own pointer
+        if not (self.dev & FRAGMENT_REPARENTS_LISTED):
+            for P, k in enumerate(self.kids):
+                if k and self.kind[P] != F and x in k:
+                    return
+        self.par[x] = self.par[L]
 
     def _append(self, L, x):
         if self.kind[x] == F:
@@ -223,8 +240,40 @@ class Tree(object):
         return NA
 
     def op_clone(self, t, x, deep):
+        n0 = len(self.kind)
         c = self._clone(t, bool(deep))
+        c = self._compact(n0, c)
         return (c, True) if deep else (c,)   # a deep clone must compare equal to its original
+
+    def _scan(self, n, order, seen):
+        """node, then its attribute-held fragments, then its children, recursively (creation order of new nodes)"""
+        if n in seen:
+            return
+        seen.add(n)
+        order.append(n)
+        if self.kind[n] == T:
+            return
+        if self.attrs[n]:
+            for f in self.attrs[n].values():
+                self._scan(f, order, seen)
+        for k in self.kids[n]:
+            self._scan(k, order, seen)
+
+    def _compact(self, n0, root):
+        """Nodes created by the current call (ids >= n0) are renumbered in the order a walk from `root` meets them;
+        nodes the call created and dropped again (unreachable temporaries) are forgotten.  Returns root's new id."""
+        order = []
+        self._scan(root, order, set())
+        new = [n for n in order if n >= n0]
+        ren = {old: n0 + k for k, old in enumerate(new)}
+        f = lambda n: ren.get(n, n) if (n is not None and n >= n0) else n
+        keep = list(range(n0)) + new
+        self.kind = [self.kind[n] for n in keep]
+        self.name = [self.name[n] for n in keep]
+        self.kids = [None if self.kids[n] is None else [f(c) for c in self.kids[n]] for n in keep]
+        self.attrs = [None if self.attrs[n] is None else {k: f(v) for k, v in self.attrs[n].items()} for n in keep]
+        self.par = [f(self.par[n]) for n in keep]
+        return f(root)
 
     def _clone(self, n, deep):
         c = self.new(self.kind[n], self.name[n])
@@ -247,7 +296,9 @@ class Tree(object):
         return c
 
     def op_normalize(self, t, x, i):
+        n0 = len(self.kind)
         self._normalize(t)
+        self._compact(n0, t)
         return NA
 
     def _normalize(self, n):
@@ -343,38 +394,68 @@ class Tree(object):
         i = k.index(c)
         return (k[i - 1] if i > 0 else None, k[i + 1] if i + 1 < len(k) else None)
 
-    def compare(self, a, b, tp):
-        """a.compareDocumentPosition(b) for two different nodes, from the lists (plasTeX's single-flag convention)"""
-        def chain(n):
-            out = [n]
-            while out[-1] in tp:
-                out.append(tp[out[-1]])
-            out.reverse()
-            return out
-        ca, cb = chain(a), chain(b)
-        if ca[0] != cb[0]:
-            return POS_DISCONNECTED
+    def clean_pointers(self, tp):
+        """the parent pointers the lists define: listing element/document, None for every root"""
+        return [tp.get(n) for n in range(len(self.kind))]
+
+    def _chain(self, n, ptr):
+        """n and its ancestors along ptr, or None when the chain never ends"""
+        out, seen = [], set()
+        while n is not None:
+            if n in seen:
+                return None
+            seen.add(n)
+            out.append(n)
+            n = ptr[n]
+        return out
+
+    def compare(self, a, b, ptr, topmost=False):
+        """a.compareDocumentPosition(b) for two different nodes (plasTeX's single-flag convention), computed from the
+        child lists and the parent pointers `ptr`; 'cycle' when a parent chain never ends.
+        topmost=False: order decided below the deepest common ancestor (the DOM definition).
+        topmost=True : the published algorithm -- adjacent-sibling shortcuts, then the FIRST common ancestor found
+                       walking down from the roots."""
+        ca, cb = self._chain(a, ptr), self._chain(b, ptr)
+        if ca is None or cb is None:
+            return 'cycle'
+        if topmost:
+            if self._ptr_sibling(a, ptr, False) == b:
+                return POS_PRECEDING
+            if self._ptr_sibling(a, ptr, True) == b:
+                return POS_FOLLOWING
         if b in ca:
             return POS_CONTAINS          # b contains a
         if a in cb:
             return POS_CONTAINED_BY
-        i = 0
-        while ca[i] == cb[i]:
-            i += 1
-        k = self.kids[ca[i - 1]]
-        return POS_FOLLOWING if k.index(ca[i]) < k.index(cb[i]) else POS_PRECEDING
+        if topmost:
+            sp, op = ca[::-1], cb[::-1]
+            for i, s0 in enumerate(sp):
+                for j, o0 in enumerate(op):
+                    if s0 == o0:
+                        s, o = sp[i + 1], op[j + 1]
+                        for item in (self.kids[s0] or ()):
+                            if item == s:
+                                return POS_FOLLOWING
+                            if item == o:
+                                return POS_PRECEDING
+            return POS_DISCONNECTED
+        inb = set(cb)
+        for i, s0 in enumerate(ca):
+            if s0 in inb:                # deepest common ancestor
+                k = self.kids[s0] or []
+                s, o = ca[i - 1], cb[cb.index(s0) - 1]
+                if s in k and o in k:
+                    return POS_FOLLOWING if k.index(s) < k.index(o) else POS_PRECEDING
+                return POS_DISCONNECTED
+        return POS_DISCONNECTED
 
-    # pointer-based variants: what plasTeX's published algorithms give on the tracked pointers
-    def _ptr_sibling(self, c, nxt):
-        P = self.par[c]
+    def _ptr_sibling(self, c, ptr, nxt):
+        """previousSibling / nextSibling the way plasTeX computes them: scan the list of the node ptr names"""
+        P = ptr[c]
         if P is None or not self.kids[P]:
             return None
-        k = self.kids[P]
-        if self.kind[P] == T:
-            return None
-        prev = None
-        hit = False
-        for item in k:
+        prev, hit = None, False
+        for item in self.kids[P]:
             if nxt:
                 if hit:
                     return item
@@ -385,36 +466,6 @@ class Tree(object):
                     return prev
                 prev = item
         return None
-
-    def compare_topmost(self, a, b):
-        if self._ptr_sibling(a, False) == b:
-            return POS_PRECEDING
-        if self._ptr_sibling(a, True) == b:
-            return POS_FOLLOWING
-        sp, p = [], a
-        while p is not None:
-            if p == b:
-                return POS_CONTAINS
-            sp.append(p)
-            p = self.par[p]
-        op, p = [], b
-        while p is not None:
-            if p == a:
-                return POS_CONTAINED_BY
-            op.append(p)
-            p = self.par[p]
-        sp.reverse()
-        op.reverse()
-        for i, s0 in enumerate(sp):
-            for j, o0 in enumerate(op):
-                if s0 == o0:
-                    s, o = sp[i + 1], op[j + 1]
-                    for item in (self.kids[s0] or ()):
-                        if item == s:
-                            return POS_FOLLOWING
-                        if item == o:
-                            return POS_PRECEDING
-        return POS_DISCONNECTED
 
     def shape(self, n):
         if self.kind[n] == T:
